@@ -1617,3 +1617,590 @@ Section EvalSide.
     - cbn in H. inversion H; subst. split; [assumption|apply IH; assumption].
   Qed.
 End EvalSide.
+
+(* ------------------------------------------------------------------ *)
+(* what the intrinsic tables say about a signature *)
+Lemma ty_eqb_shape : forall x y, ty_eqb x y = true -> shape x = shape y.
+Proof. destruct x, y; intros H; try reflexivity; cbn in H; discriminate H. Qed.
+
+Definition tys_go : list ty -> list ty -> bool :=
+  fix go (l1 l2 : list ty) {struct l1} : bool :=
+    match l1, l2 with
+    | [], [] => true
+    | a :: r1, b :: r2 => ty_eqb a b && go r1 r2
+    | _, _ => false
+    end.
+
+Lemma tys_go_shapes : forall l1 l2, tys_go l1 l2 = true -> shapes l1 = shapes l2 /\ List.length l1 = List.length l2.
+Proof.
+  induction l1 as [|a r IH]; intros [|b r2] H; cbn in H; try discriminate.
+  - split; reflexivity.
+  - apply andb_true_iff in H. destruct H as [H1 H2]. destruct (IH _ H2) as [Hs Hl].
+    change (shapes (a :: r)) with (shape a ++ shapes r)%string.
+    change (shapes (b :: r2)) with (shape b ++ shapes r2)%string.
+    cbn [List.length]. rewrite (ty_eqb_shape _ _ H1), Hs, Hl. split; reflexivity.
+Qed.
+
+Lemma funty_shapes : forall n ps r n' ps' r', ty_eqb (TFun n ps r) (TFun n' ps' r') = true ->
+  shapes ps = shapes ps' /\ List.length ps = List.length ps'.
+Proof.
+  intros n ps r n' ps' r' H.
+  change (tys_go ps ps' && ty_eqb r r' = true) in H. apply andb_true_iff in H. destruct H as [H _].
+  apply tys_go_shapes. exact H.
+Qed.
+
+Lemma same_fn_inv : forall name ps sg, same_fn name ps sg = true ->
+  name = s_name sg /\ shapes ps = shapes (s_params sg) /\ List.length ps = List.length (s_params sg).
+Proof.
+  intros name ps sg H. unfold same_fn in H. apply andb_true_iff in H. destruct H as [H1 H2].
+  apply String.eqb_eq in H1. destruct (funty_shapes _ _ _ _ _ _ H2) as [Hs Hl]. auto.
+Qed.
+
+Lemma classify_shapes : forall n ps ps', shapes ps = shapes ps' -> classify n ps = classify n ps'.
+Proof. intros n ps ps' H. unfold classify. rewrite H. reflexivity. Qed.
+
+Lemma builtin_row : forall sg, sig_is_builtin sg = true ->
+  exists n ps r lz, In (n, ps, r, lz) builtin_sigs /\ n = s_name sg /\ lz = s_lazy sg /\ shapes ps = shapes (s_params sg).
+Proof.
+  intros sg H. unfold sig_is_builtin in H. apply existsb_exists in H. destruct H as [[[[n ps] r] lz] [Hin H]].
+  apply andb_true_iff in H. destruct H as [H H3]. apply andb_true_iff in H. destruct H as [H1 H2].
+  apply String.eqb_eq in H1. apply Bool.eqb_prop in H2. destruct (funty_shapes _ _ _ _ _ _ H3) as [Hs _].
+  exists n, ps, r, lz. auto.
+Qed.
+
+Lemma cbv_rows_strict :
+  forallb (fun x => forallb (fun y => let '(n, ps, r, lz) := y in
+                                      if String.eqb (fst (fst x)) n && String.eqb (shapes (snd (fst x))) (shapes ps)
+                                      then negb lz else true) builtin_sigs) intrinsics_cbv = true.
+Proof. vm_compute. reflexivity. Qed.
+
+Lemma cbn_rows_lazy :
+  forallb (fun x => forallb (fun y => let '(n, ps, r, lz) := y in
+                                      if String.eqb (fst x) n && String.eqb (shapes (snd x)) (shapes ps)
+                                      then Bool.eqb lz (match classify (fst x) (snd x) with
+                                                        | Some b => is_lazy_builtin b | None => false end)
+                                      else true) builtin_sigs) intrinsics_cbn = true.
+Proof. vm_compute. reflexivity. Qed.
+
+Section Intrinsics.
+  Variable ops : numops.
+  Variable orc : oracles.
+
+  Lemma cbv_info : forall sg o, intrinsic_cbv sg = Some o ->
+    sig_is_builtin sg = true /\ s_lazy sg = false /\
+    exists bf, classify (s_name sg) (s_params sg) = Some bf /\ intrinsic_sem o = Some (bf, List.length (s_params sg)).
+  Proof.
+    intros sg o H. unfold intrinsic_cbv in H. destruct (sig_is_builtin sg) eqn:Hb; [|discriminate].
+    destruct (find (fun x => same_fn (fst (fst x)) (snd (fst x)) sg) intrinsics_cbv) as [[[name ps] opn]|] eqn:Hf;
+      [|discriminate].
+    apply find_some in Hf. destruct Hf as [Hin Hs]. cbn [fst snd] in *.
+    destruct (same_fn_inv _ _ _ Hs) as [Hn [Hsh Hl]].
+    split; [reflexivity|]. split.
+    - destruct (builtin_row sg Hb) as [n' [ps' [r' [lz [Hin' [Hn' [Hlz Hsh']]]]]]].
+      pose proof cbv_rows_strict as Hc. rewrite forallb_forall in Hc. specialize (Hc _ Hin).
+      rewrite forallb_forall in Hc. specialize (Hc _ Hin'). cbn [fst snd] in Hc.
+      rewrite Hn, Hn', String.eqb_refl, Hsh, Hsh', String.eqb_refl in Hc. cbn in Hc.
+      rewrite <- Hlz. destruct lz; [discriminate|reflexivity].
+    - destruct intrinsics_agree as [Ha _]. rewrite forallb_forall in Ha. specialize (Ha _ Hin). cbn beta iota in Ha.
+      rewrite H in Ha. destruct (classify name ps) as [b|] eqn:Hc; [|discriminate].
+      destruct (intrinsic_sem o) as [[b' k]|]; [|discriminate].
+      apply andb_true_iff in Ha. destruct Ha as [Hb1 Hk]. apply internal_bfun_dec_bl in Hb1. apply Nat.eqb_eq in Hk.
+      subst b' k. exists b. split.
+      + rewrite <- Hn, <- (classify_shapes name ps _ Hsh). exact Hc.
+      + rewrite Hl. reflexivity.
+  Qed.
+
+  Lemma cbn_info : forall sg b, intrinsic_cbn sg = Some b ->
+    sig_is_builtin sg = true /\ classify (s_name sg) (s_params sg) = Some b /\
+    (b = BIf \/ b = BAnd \/ b = BOr \/ b = BNot) /\ s_lazy sg = is_lazy_builtin b.
+  Proof.
+    intros sg b H. unfold intrinsic_cbn in H.
+    destruct (sig_is_builtin sg) eqn:Hb; [|discriminate]. cbn [andb] in H.
+    destruct (existsb (fun x => same_fn (fst x) (snd x) sg) intrinsics_cbn) eqn:He; [|discriminate].
+    apply existsb_exists in He. destruct He as [[name ps] [Hin Hs]]. cbn [fst snd] in Hs.
+    destruct (same_fn_inv _ _ _ Hs) as [Hn [Hsh Hl]].
+    split; [reflexivity|]. split; [exact H|].
+    assert (Hc : classify name ps = Some b).
+    { rewrite Hn, (classify_shapes _ ps _ Hsh). exact H. }
+    split.
+    - destruct intrinsics_agree as [_ Ha]. rewrite forallb_forall in Ha. specialize (Ha _ Hin). cbn [fst snd] in Ha.
+      rewrite Hc in Ha. destruct b; try discriminate; auto.
+    - destruct (builtin_row sg Hb) as [n' [ps' [r' [lz [Hin' [Hn' [Hlz Hsh']]]]]]].
+      pose proof cbn_rows_lazy as Hr. rewrite forallb_forall in Hr. specialize (Hr _ Hin).
+      rewrite forallb_forall in Hr. specialize (Hr _ Hin'). cbn [fst snd] in Hr.
+      rewrite Hc, Hn, Hn', String.eqb_refl, Hsh, Hsh', String.eqb_refl in Hr. cbn [andb] in Hr.
+      apply Bool.eqb_prop in Hr. rewrite <- Hlz. exact Hr.
+  Qed.
+
+  Lemma bsem_arity : forall o bf k vs t ox, intrinsic_sem o = Some (bf, k) ->
+    bsem ops orc bf vs = (t, ox) -> is_fault ox = false -> List.length vs = k.
+  Proof.
+    intros o bf k vs t ox Hi H Hnf.
+    destruct o; cbn in Hi; inversion Hi; subst bf k; clear Hi;
+      destruct vs as [|a [|b [|c r]]]; try reflexivity; exfalso;
+      cbn in H; try (inversion H; subst; discriminate Hnf);
+      repeat match type of H with
+             | context [match ?x with _ => _ end] => destruct x; try (inversion H; subst; discriminate Hnf)
+             end.
+  Qed.
+End Intrinsics.
+
+(* ------------------------------------------------------------------ *)
+(* the main induction *)
+Lemma ext_pc : forall a b f p, ext a b f p -> N.to_nat (cs_clen b) = (N.to_nat (cs_clen a) + List.length f)%nat.
+Proof. intros a b f p [_ [A2 _]]. rewrite A2. lia. Qed.
+
+Lemma is_fault_omap : forall X Y (k : X -> Y) o, is_fault (omap k o) = is_fault o.
+Proof. intros X Y k [x|f|f]; reflexivity. Qed.
+
+Section Main.
+  Variable ops : numops.
+  Variable orc : oracles.
+  Variable fe : fenv.
+  Variable rho : venv.
+  Notation eval := (eval ops orc fe rho).
+  Notation compile := (compile ops orc fe).
+  Notation exec := (exec ops orc rho).
+  Notation sagree := (subs_agree ops orc fe rho).
+  Notation pc st := (N.to_nat (cs_clen st)).
+
+  Definition Pstmt (f : nat) (a : aexpr) : Prop :=
+    forall st st' frag pf t o, sagree a -> wf st -> compile a st = COk st' -> ext st st' frag pf ->
+      eval f a = (t, o) -> is_fault o = false ->
+      eventually (fun F => exec F (pc st) frag (pool_of st') t [] (omap (fun v => [SV v]) o)).
+
+  (* running a complete code object: the fragment followed by RETURN *)
+  Lemma exec_run : forall F frag pl pool t o,
+    exec F 0 frag pl t [] (omap (fun v => [SV v]) o) -> pool_ext pl pool -> is_fault o = false ->
+    vm_run ops orc rho pool None (S F) (frag ++ [op_byte OP_RETURN]) = (t, o).
+  Proof.
+    intros F frag pl pool t o He Hp Hnf. rewrite vm_run_S.
+    specialize (He (frag ++ [op_byte OP_RETURN]) pool [op_byte OP_RETURN] [] eq_refl Hp).
+    set (g := (4 * S (len (frag ++ [op_byte OP_RETURN])))%nat).
+    assert (Hg : (List.length frag + 1 <= g)%nat).
+    { unfold g, len. rewrite app_length. cbn [List.length]. lia. }
+    specialize (He g ltac:(lia)). cbn [rev app] in He. destruct o as [v|k|k]; cbn [omap] in He.
+    - destruct He as [g' [Hg' E]]. rewrite E. cbn [rev app].
+      destruct g' as [|g']; [lia|]. rewrite instr_return. unfold tpre, ret. cbn. rewrite app_nil_r. reflexivity.
+    - exact He.
+    - discriminate.
+  Qed.
+
+  Lemma all_ext : forall l, Forall (ext_prop ops orc fe) l.
+  Proof. induction l; constructor; [apply compile_ext|assumption]. Qed.
+
+  Lemma comp_kvs_flat : forall kvs st, comp_kvs ops orc fe kvs st = comp_list ops orc fe (flatten kvs) st.
+  Proof.
+    induction kvs as [|[k v] r IH]; intros st; [reflexivity|].
+    cbn [comp_kvs flatten flat_map fst snd app comp_list]. fold (flatten r).
+    destruct (compile k st) as [s1| |]; try reflexivity. cbn [cbind].
+    destruct (compile v s1) as [s2| |]; try reflexivity. cbn [cbind]. apply IH.
+  Qed.
+
+  Lemma comp_fields_map : forall fs st, comp_fields ops orc fe fs st = comp_list ops orc fe (map snd fs) st.
+  Proof.
+    induction fs as [|[n v] r IH]; intros st; [reflexivity|].
+    cbn [comp_fields map snd comp_list]. destruct (compile v st) as [s1| |]; try reflexivity. cbn [cbind]. apply IH.
+  Qed.
+
+  Lemma leaf_const : forall F st st' frag pf v, wf st ->
+    emit_const (CVal v) (emit_op OP_CONST st) = COk st' -> ext st st' frag pf ->
+    exec F (pc st) frag (pool_of st') [] [] (OVal [SV v]).
+  Proof.
+    intros F st st' frag pf v W H E. apply const_instr_ext in H. destruct H as [E' _].
+    destruct (ext_inj _ _ _ _ _ _ E E') as [Hf Hp]. subst frag pf.
+    apply exec_const. apply (pool_new_nth _ _ _ _ W E).
+  Qed.
+
+  Section Step.
+    Variable f : nat.
+    Hypothesis IH : forall a, Pstmt f a.
+
+    Lemma list_case : forall es st st' frag pf t o, Forall sagree es -> wf st ->
+      comp_list ops orc fe es st = COk st' -> ext st st' frag pf ->
+      mmapM (eval f) es = (t, o) -> is_fault o = false ->
+      eventually (fun F => exec F (pc st) frag (pool_of st') t [] (omap (map SV) o)).
+    Proof.
+      induction es as [|x r IHr]; intros st st' frag pf t o Hs W Hc E Hm Hnf.
+      - cbn in Hc. inversion Hc; subst st'. destruct (ext_inj _ _ _ _ _ _ E (ext_refl st)) as [Hf _]. subst frag.
+        cbn in Hm. inversion Hm; subst. apply ev_all. intros F. apply exec_nil.
+      - inversion Hs as [|? ? Hx Hr]; subst. cbn [comp_list] in Hc. cinv Hc. rename st0 into st1.
+        destruct (compile_ext ops orc fe x _ _ W Hc0) as [f1 [p1 E1]]. pose proof (ext_wf _ _ _ _ W E1) as W1.
+        destruct (comp_list_ext ops orc fe r (all_ext r) _ _ W1 Hc)
+          as [f2 [p2 E2]].
+        destruct (ext_inj _ _ _ _ _ _ E (ext_trans _ _ _ _ _ _ _ E1 E2)) as [Hf Hp]. subst frag pf.
+        destruct (mmapM_cons_inv _ _ _ _ _ _ _ Hm Hnf) as [[t1 [v [t2 [o2 [H1 [H2 [Ht [Ho Hnf2]]]]]]]]|[k [H1 Ho]]].
+        + subst t o.
+          pose proof (IH x _ _ _ _ _ _ Hx W Hc0 E1 H1 eq_refl) as Ex.
+          pose proof (IHr _ _ _ _ _ _ Hr W1 Hc E2 H2 Hnf2) as Er.
+          refine (ev_mono _ _ _ (ev_and _ _ Ex Er)). intros F [HA HB]. cbv beta in HA, HB.
+          rewrite (ext_pc _ _ _ _ E1) in HB.
+          assert (HA' := exec_pool _ _ _ _ _ _ _ _ _ _ _ (ext_pool_ext _ _ _ _ E2) HA).
+          cbn [omap] in HA'.
+          assert (HC : exec F (pc st) (f1 ++ f2) (pool_of st') (t1 ++ t2) [] (omap (app [SV v]) (omap (map SV) o2)))
+            by (eapply exec_push; [exact HA'|exact HB]).
+          rewrite omap_omap in HC. rewrite omap_omap. exact HC.
+        + subst o. pose proof (IH x _ _ _ _ _ _ Hx W Hc0 E1 H1 eq_refl) as Ex.
+          refine (ev_mono _ _ _ Ex). intros F HA. cbn [omap] in *.
+          apply exec_seq_fail. apply (exec_pool _ _ _ _ _ _ _ _ _ _ _ (ext_pool_ext _ _ _ _ E2) HA).
+    Qed.
+
+    Lemma case_str : forall v, Pstmt (S f) (AStr v).
+    Proof.
+      intros v st st' frag pf t o _ W Hc E He _. cbn [VM.compile] in Hc. cbn in He. inversion He; subst.
+      apply ev_all. intros F. cbn [omap]. eapply leaf_const; eassumption.
+    Qed.
+    Lemma case_num : forall tx n, Pstmt (S f) (ANum tx n).
+    Proof.
+      intros tx n st st' frag pf t o _ W Hc E He _. cbn [VM.compile] in Hc. cbn [Eval.eval] in He. inversion He; subst.
+      apply ev_all. intros F. cbn [omap]. eapply leaf_const; eassumption.
+    Qed.
+    Lemma case_time : forall tx, Pstmt (S f) (ATime tx).
+    Proof.
+      intros tx st st' frag pf t o _ W Hc E He _. cbn [VM.compile] in Hc. cbn [Eval.eval] in He. inversion He; subst.
+      apply ev_all. intros F. cbn [omap]. eapply leaf_const; eassumption.
+    Qed.
+    Lemma case_bool : forall b, Pstmt (S f) (ABool b).
+    Proof.
+      intros b st st' frag pf t o _ W Hc E He _. cbn [VM.compile] in Hc. cbn [Eval.eval] in He. inversion He; subst.
+      apply ev_all. intros F. cbn [omap]. eapply leaf_const; eassumption.
+    Qed.
+
+    Lemma case_ident : forall c name, Pstmt (S f) (AIdent c name).
+    Proof.
+      intros c name st st' frag pf t o _ W Hc E He Hnf. cbn [VM.compile] in Hc. rewrite eval_ident_eq in He.
+      destruct (assoc name rho) as [v|] eqn:Ha; inversion He; subst; [|discriminate].
+      apply const_instr_ext in Hc. destruct Hc as [E' _].
+      destruct (ext_inj _ _ _ _ _ _ E E') as [Hf Hp]. subst frag pf.
+      apply ev_all. intros F. cbn [omap]. eapply exec_load; [|exact Ha]. apply (pool_new_nth _ _ _ _ W E).
+    Qed.
+
+    Lemma case_list : forall ty es, Pstmt (S f) (AList ty es).
+    Proof.
+      intros ty es st st' frag pf t o Hs W Hc E He Hnf.
+      cbn [subs_agree] in Hs. destruct Hs as [[e Hty] [Hnil Hall]]. apply all_list in Hall.
+      rewrite compile_list_eq in Hc. cinv Hc. rename st0 into st1. cinv Hc. rename st0 into st2.
+      destruct (comp_list_ext ops orc fe es (all_ext es) _ _ W Hc0) as [f1 [p1 E1]].
+      pose proof (ext_wf _ _ _ _ W E1) as W1.
+      apply const_instr_ext in Hc1. destruct Hc1 as [E2 _]. apply emit16_ext in Hc. destruct Hc as [E3 _].
+      pose proof (ext_trans _ _ _ _ _ _ _ E1 (ext_trans _ _ _ _ _ _ _ E2 E3)) as E'.
+      destruct (ext_inj _ _ _ _ _ _ E E') as [Hf Hp]. subst frag pf.
+      assert (He' : mbind (mmapM (eval f) es) (fun vs => ret (VList ty vs)) = (t, o)).
+      { rewrite eval_list_eq in He. destruct es; [|exact He]. rewrite (Hnil eq_refl). exact He. }
+      assert (Hidx : nth_error (pool_of st') (N.to_nat (cs_plen st1)) = Some (CType (TList e))).
+      { rewrite <- Hty. eapply pool_ext_nth; [exact (ext_pool_ext _ _ _ _ E3)|]. apply (pool_new_nth _ _ _ _ W1 E2). }
+      destruct (mbind_inv _ _ _ _ _ _ He' Hnf) as [[t1 [vs [t2 [Hm [Hr Ht]]]]]|[kf [Hm Ho]]].
+      - inversion Hr; subst t2 o. rewrite app_nil_r in Ht. subst t1.
+        pose proof (list_case _ _ _ _ _ _ _ Hall W Hc0 E1 Hm eq_refl) as Ex.
+        refine (ev_mono _ _ _ Ex). intros F HA. cbn [omap] in *.
+        rewrite <- (app_nil_r t).
+        eapply exec_seq.
+        + eapply exec_pool; [|exact HA]. eapply pool_ext_trans; [exact (ext_pool_ext _ _ _ _ E2)|exact (ext_pool_ext _ _ _ _ E3)].
+        + rewrite Hty. unfold len. rewrite <- (mmapM_length _ _ _ _ _ _ Hm). cbn [app].
+          apply exec_new_list. exact Hidx.
+      - subst o. pose proof (list_case _ _ _ _ _ _ _ Hall W Hc0 E1 Hm eq_refl) as Ex.
+        refine (ev_mono _ _ _ Ex). intros F HA. cbn [omap] in *.
+        apply exec_seq_fail.
+        eapply exec_pool; [|exact HA]. eapply pool_ext_trans; [exact (ext_pool_ext _ _ _ _ E2)|exact (ext_pool_ext _ _ _ _ E3)].
+    Qed.
+
+    Lemma case_map : forall ty kvs, Pstmt (S f) (AMap ty kvs).
+    Proof.
+      intros ty kvs st st' frag pf t o Hs W Hc E He Hnf.
+      cbn [subs_agree] in Hs. destruct Hs as [[kt [vt Hty]] [Hnil Hall]]. apply all_kvs in Hall.
+      rewrite compile_map_eq in Hc. cinv Hc. rename st0 into st1. cinv Hc. rename st0 into st2.
+      rewrite comp_kvs_flat in Hc0.
+      destruct (comp_list_ext ops orc fe _ (all_ext (flatten kvs)) _ _ W Hc0) as [f1 [p1 E1]].
+      pose proof (ext_wf _ _ _ _ W E1) as W1.
+      apply const_instr_ext in Hc1. destruct Hc1 as [E2 _]. apply emit16_ext in Hc. destruct Hc as [E3 _].
+      pose proof (ext_trans _ _ _ _ _ _ _ E1 (ext_trans _ _ _ _ _ _ _ E2 E3)) as E'.
+      destruct (ext_inj _ _ _ _ _ _ E E') as [Hf Hp]. subst frag pf.
+      assert (He' : mbind (eval_entries ops orc fe rho f kvs []) (fun en => ret (VMap ty en)) = (t, o)).
+      { rewrite eval_map_eq in He. destruct kvs; [|exact He]. rewrite (Hnil eq_refl). exact He. }
+      assert (Hidx : nth_error (pool_of st') (N.to_nat (cs_plen st1)) = Some (CType (TMap kt vt))).
+      { rewrite <- Hty. eapply pool_ext_nth; [exact (ext_pool_ext _ _ _ _ E3)|]. apply (pool_new_nth _ _ _ _ W1 E2). }
+      assert (Hpool : pool_ext (pool_of st1) (pool_of st')).
+      { eapply pool_ext_trans; [exact (ext_pool_ext _ _ _ _ E2)|exact (ext_pool_ext _ _ _ _ E3)]. }
+      destruct (mbind_inv _ _ _ _ _ _ He' Hnf) as [[t1 [en [t2 [Hm [Hr Ht]]]]]|[kf [Hm Ho]]].
+      - inversion Hr; subst t2 o. rewrite app_nil_r in Ht. subst t1.
+        destruct (entries_inv ops orc fe rho f kvs [] t (OVal en) Hm eq_refl)
+          as [[vs [en' [Hmm [Ho [Hve Hl]]]]]|[kf [Ho _]]]; [|discriminate].
+        inversion Ho; subst en'.
+        pose proof (list_case _ _ _ _ _ _ _ Hall W Hc0 E1 Hmm eq_refl) as Ex.
+        refine (ev_mono _ _ _ Ex). intros F HA. cbn [omap] in *.
+        rewrite <- (app_nil_r t).
+        eapply exec_seq.
+        + eapply exec_pool; [exact Hpool|exact HA].
+        + rewrite Hty. cbn [app]. unfold len. eapply exec_new_map; eassumption.
+      - subst o.
+        destruct (entries_inv ops orc fe rho f kvs [] t (OFail kf) Hm eq_refl)
+          as [[vs [en' [Hmm [Ho _]]]]|[kf' [Ho Hmm]]]; [discriminate|].
+        inversion Ho; subst kf'.
+        pose proof (list_case _ _ _ _ _ _ _ Hall W Hc0 E1 Hmm eq_refl) as Ex.
+        refine (ev_mono _ _ _ Ex). intros F HA. cbn [omap] in *.
+        apply exec_seq_fail. eapply exec_pool; [exact Hpool|exact HA].
+    Qed.
+
+    Lemma case_obj : forall ty fs, Pstmt (S f) (AObj ty fs).
+    Proof.
+      intros ty fs st st' frag pf t o Hs W Hc E He Hnf.
+      cbn [subs_agree] in Hs. destruct Hs as [[tfs [Hty Hlen]] Hall]. apply all_fields in Hall.
+      rewrite compile_obj_eq in Hc. cinv Hc. rename st0 into st1.
+      rewrite comp_fields_map in Hc0.
+      destruct (comp_list_ext ops orc fe _ (all_ext (map snd fs)) _ _ W Hc0) as [f1 [p1 E1]].
+      pose proof (ext_wf _ _ _ _ W E1) as W1.
+      apply const_instr_ext in Hc. destruct Hc as [E2 _].
+      pose proof (ext_trans _ _ _ _ _ _ _ E1 E2) as E'.
+      destruct (ext_inj _ _ _ _ _ _ E E') as [Hf Hp]. subst frag pf.
+      assert (He' : mbind (mmapM (eval f) (map snd fs)) (fun vs => ret (VObj ty vs)) = (t, o)).
+      { rewrite eval_obj_eq in He. rewrite <- mmapM_map. destruct fs; [|exact He].
+        destruct tfs; [|discriminate Hlen]. subst ty. exact He. }
+      assert (Hidx : nth_error (pool_of st') (N.to_nat (cs_plen st1)) = Some (CType (TObj tfs))).
+      { rewrite <- Hty. apply (pool_new_nth _ _ _ _ W1 E2). }
+      destruct (mbind_inv _ _ _ _ _ _ He' Hnf) as [[t1 [vs [t2 [Hm [Hr Ht]]]]]|[kf [Hm Ho]]].
+      - inversion Hr; subst t2 o. rewrite app_nil_r in Ht. subst t1.
+        pose proof (list_case _ _ _ _ _ _ _ Hall W Hc0 E1 Hm eq_refl) as Ex.
+        refine (ev_mono _ _ _ Ex). intros F HA. cbn [omap] in *.
+        rewrite <- (app_nil_r t).
+        eapply exec_seq.
+        + eapply exec_pool; [exact (ext_pool_ext _ _ _ _ E2)|exact HA].
+        + rewrite Hty. apply exec_new_obj; [exact Hidx|].
+          rewrite Hlen. unfold len. rewrite (mmapM_length _ _ _ _ _ _ Hm), map_length. reflexivity.
+      - subst o. pose proof (list_case _ _ _ _ _ _ _ Hall W Hc0 E1 Hm eq_refl) as Ex.
+        refine (ev_mono _ _ _ Ex). intros F HA. cbn [omap] in *.
+        apply exec_seq_fail. eapply exec_pool; [exact (ext_pool_ext _ _ _ _ E2)|exact HA].
+    Qed.
+
+    Lemma case_sub : forall c vty v i, Pstmt (S f) (ASub c vty v i).
+    Proof.
+      intros c vty v i st st' frag pf t o Hs W Hc E He Hnf.
+      cbn [subs_agree] in Hs. destruct Hs as [Hv [Hi Hk]].
+      rewrite compile_sub_eq in Hc. cinv Hc. rename st0 into st1. cinv Hc. rename st0 into st2.
+      destruct (compile_ext ops orc fe v _ _ W Hc0) as [f1 [p1 E1]]. pose proof (ext_wf _ _ _ _ W E1) as W1.
+      destruct (compile_ext ops orc fe i _ _ W1 Hc1) as [f2 [p2 E2]]. pose proof (ext_wf _ _ _ _ W1 E2) as W2.
+      assert (Hop : exists op, st' = emit_op op st2 /\
+                     ((ty_is_list vty = true /\ op = OP_LIST_LOAD) \/ (ty_is_list vty = false /\ op = OP_MAP_LOAD))).
+      { destruct (ty_is_list vty); [|destruct (ty_is_map vty); [|discriminate]]; inversion Hc; subst;
+          eexists; split; try reflexivity; auto. }
+      destruct Hop as [op [Hst' Hop]]. subst st'. clear Hc.
+      pose proof (ext_emit_op op st2) as E3.
+      pose proof (ext_trans _ _ _ _ _ _ _ E1 (ext_trans _ _ _ _ _ _ _ E2 E3)) as E'.
+      destruct (ext_inj _ _ _ _ _ _ E E') as [Hf Hp]. subst frag pf.
+      assert (Hp1 : pool_ext (pool_of st1) (pool_of (emit_op op st2))).
+      { eapply pool_ext_trans; [exact (ext_pool_ext _ _ _ _ E2)|exact (ext_pool_ext _ _ _ _ E3)]. }
+      assert (Hp2 : pool_ext (pool_of st2) (pool_of (emit_op op st2))) by exact (ext_pool_ext _ _ _ _ E3).
+      rewrite eval_sub_eq in He.
+      destruct (mbind_inv _ _ _ _ _ _ He Hnf) as [[t1 [x [t2 [Hev [Hr Ht]]]]]|[kf [Hev Ho]]].
+      2:{ subst o. pose proof (IH v _ _ _ _ _ _ Hv W Hc0 E1 Hev eq_refl) as Ex.
+          refine (ev_mono _ _ _ Ex). intros F HA. cbn [omap] in *.
+          apply exec_seq_fail. eapply exec_pool; [exact Hp1|exact HA]. }
+      pose proof (Hk _ _ _ Hev) as Hkind.
+      pose proof (IH v _ _ _ _ _ _ Hv W Hc0 E1 Hev eq_refl) as Ex.
+      assert (Hgen : forall (m : val -> M val) (pre : val -> list sval),
+                (forall F iv tm om, m iv = (tm, om) ->
+                   exec F (pc st + List.length (f1 ++ f2)) [op_byte op] (pool_of (emit_op op st2)) tm
+                        [SV x; SV iv] (omap (fun e => [SV e]) om)) ->
+                mbind (eval f i) m = (t2, o) ->
+                eventually (fun F => exec F (pc st) (f1 ++ f2 ++ [op_byte op]) (pool_of (emit_op op st2)) t []
+                                          (omap (fun v0 => [SV v0]) o))).
+      { intros m pre Hm Hr'.
+        destruct (mbind_inv _ _ _ _ _ _ Hr' Hnf) as [[t3 [iv [t4 [Hei [Hl Ht2]]]]]|[kf [Hei Ho]]].
+        - pose proof (IH i _ _ _ _ _ _ Hi W1 Hc1 E2 Hei eq_refl) as Ei.
+          refine (ev_mono _ _ _ (ev_and _ _ Ex Ei)). intros F [HA HB]. cbv beta in HA, HB. cbn [omap] in HA, HB.
+          rewrite (ext_pc _ _ _ _ E1) in HB.
+          subst t t2. rewrite !app_assoc.
+          eapply exec_seq.
+          + assert (HC : exec F (pc st) (f1 ++ f2) (pool_of (emit_op op st2)) (t1 ++ t3) [] (omap (app [SV x]) (OVal [SV iv]))).
+            { eapply exec_push; [eapply exec_pool; [exact Hp1|exact HA]|eapply exec_pool; [exact Hp2|exact HB]]. }
+            exact HC.
+          + apply Hm. exact Hl.
+        - subst o. pose proof (IH i _ _ _ _ _ _ Hi W1 Hc1 E2 Hei eq_refl) as Ei.
+          refine (ev_mono _ _ _ (ev_and _ _ Ex Ei)). intros F [HA HB]. cbv beta in HA, HB. cbn [omap] in HA, HB.
+          rewrite (ext_pc _ _ _ _ E1) in HB. subst t. rewrite (app_assoc f1 f2). cbn [omap].
+          apply exec_seq_fail.
+          assert (HC : exec F (pc st) (f1 ++ f2) (pool_of (emit_op op st2)) (t1 ++ t2) [] (omap (app [SV x]) (OFail kf))).
+          { eapply exec_push; [eapply exec_pool; [exact Hp1|exact HA]|eapply exec_pool; [exact Hp2|exact HB]]. }
+          exact HC. }
+      destruct x; try (inversion Hr; subst; discriminate).
+      - cbn [kind_agrees] in Hkind. destruct Hop as [[_ Hop]|[Hop _]]; [|rewrite Hop in Hkind; discriminate]. subst op.
+        apply (Hgen (fun iv => list_load_m ops iv vs) (fun _ => [])); [|exact Hr].
+        intros F iv tm om Hl. apply exec_list_load. exact Hl.
+      - cbn [kind_agrees] in Hkind. destruct Hop as [[Hop _]|[_ Hop]]; [rewrite Hop in Hkind; discriminate|]. subst op.
+        apply (Hgen (fun kv => map_load_m ops kv kvs) (fun _ => [])); [|exact Hr].
+        intros F kv tm om Hl. apply exec_map_load. exact Hl.
+    Qed.
+
+    Lemma case_member : forall c oty idx ob name, Pstmt (S f) (AMember c oty idx ob name).
+    Proof.
+      intros c oty idx ob name st st' frag pf t o Hs W Hc E He Hnf.
+      cbn [subs_agree] in Hs.
+      rewrite compile_member_eq in Hc. cinv Hc. rename st0 into st1. cinv Hc. rename st0 into st2.
+      destruct (compile_ext ops orc fe ob _ _ W Hc0) as [f1 [p1 E1]]. pose proof (ext_wf _ _ _ _ W E1) as W1.
+      apply emit16_ext in Hc1. destruct Hc1 as [E2b _].
+      pose proof (ext_trans _ _ _ _ _ _ _ (ext_emit_op OP_OBJ_LOAD st1) E2b) as E2. cbn [app] in E2.
+      pose proof (ext_wf _ _ _ _ W1 E2) as W2.
+      apply emit_const_ext in Hc. destruct Hc as [E3 _].
+      pose proof (ext_trans _ _ _ _ _ _ _ E1 (ext_trans _ _ _ _ _ _ _ E2 E3)) as E'.
+      destruct (ext_inj _ _ _ _ _ _ E E') as [Hf Hp]. subst frag pf.
+      assert (Hidx : nth_error (pool_of st') (N.to_nat (cs_plen st2)) = Some (CName name))
+        by apply (pool_new_nth _ _ _ _ W2 E3).
+      assert (Hp1 : pool_ext (pool_of st1) (pool_of st')).
+      { eapply pool_ext_trans; [exact (ext_pool_ext _ _ _ _ E2)|exact (ext_pool_ext _ _ _ _ E3)]. }
+      rewrite eval_member_eq in He.
+      destruct (mbind_inv _ _ _ _ _ _ He Hnf) as [[t1 [ov [t2 [Hev [Hr Ht]]]]]|[kf [Hev Ho]]].
+      - pose proof (IH ob _ _ _ _ _ _ Hs W Hc0 E1 Hev eq_refl) as Ex.
+        refine (ev_mono _ _ _ Ex). intros F HA. cbn [omap] in HA. subst t.
+        eapply exec_seq; [eapply exec_pool; [exact Hp1|exact HA]|].
+        cbn [app]. eapply exec_obj_load; eassumption.
+      - subst o. pose proof (IH ob _ _ _ _ _ _ Hs W Hc0 E1 Hev eq_refl) as Ex.
+        refine (ev_mono _ _ _ Ex). intros F HA. cbn [omap] in *.
+        apply exec_seq_fail. eapply exec_pool; [exact Hp1|exact HA].
+    Qed.
+
+    (* strict arguments followed by an instruction sequence consuming them *)
+    Lemma strict_call : forall args st st1 st' f1 p1 tail ptail (m : list val -> M val) t o,
+      Forall sagree args -> wf st -> comp_list ops orc fe args st = COk st1 -> ext st st1 f1 p1 ->
+      ext st1 st' tail ptail ->
+      (forall F vs tm om, List.length vs = List.length args -> m vs = (tm, om) -> is_fault om = false ->
+         exec F (pc st1) tail (pool_of st') tm (map SV vs) (omap (fun e => [SV e]) om)) ->
+      mbind (mmapM (eval f) args) m = (t, o) -> is_fault o = false ->
+      eventually (fun F => exec F (pc st) (f1 ++ tail) (pool_of st') t [] (omap (fun v => [SV v]) o)).
+    Proof.
+      intros args st st1 st' f1 p1 tail ptail m t o Hall W Hc E1 E2 Hm He Hnf.
+      destruct (mbind_inv _ _ _ _ _ _ He Hnf) as [[t1 [vs [t2 [Hmm [Hr Ht]]]]]|[kf [Hmm Ho]]].
+      - pose proof (list_case _ _ _ _ _ _ _ Hall W Hc E1 Hmm eq_refl) as Ex.
+        refine (ev_mono _ _ _ Ex). intros F HA. cbn [omap] in HA. subst t.
+        eapply exec_seq; [eapply exec_pool; [exact (ext_pool_ext _ _ _ _ E2)|exact HA]|].
+        rewrite <- (ext_pc _ _ _ _ E1). apply Hm; [|exact Hr|exact Hnf].
+        apply (mmapM_length _ _ _ _ _ _ Hmm).
+      - subst o. pose proof (list_case _ _ _ _ _ _ _ Hall W Hc E1 Hmm eq_refl) as Ex.
+        refine (ev_mono _ _ _ Ex). intros F HA. cbn [omap] in *.
+        apply exec_seq_fail. eapply exec_pool; [exact (ext_pool_ext _ _ _ _ E2)|exact HA].
+    Qed.
+
+    Lemma comp_args_strict : forall sg args i st, s_lazy sg = false ->
+      comp_args ops orc fe sg args i st = comp_list ops orc fe args st.
+    Proof.
+      intros sg args i st Hl. revert i st. induction args as [|x r IHr]; intros i st; [reflexivity|].
+      cbn [comp_args comp_list]. rewrite Hl. destruct (compile x st) as [s1| |]; try reflexivity. cbn [cbind]. apply IHr.
+    Qed.
+
+    Lemma call_strict_eq : forall sg args, s_lazy sg = false ->
+      call_m ops orc fe rho f sg args = mbind (mmapM (eval f) args) (fun vs => apply_strict ops orc sg vs).
+    Proof. intros sg args Hl. unfold call_m. rewrite Hl. reflexivity. Qed.
+
+    (* a static call of a strict function: intrinsic opcode or CALL_BY_VALUE *)
+    Lemma case_call_strict : forall sg args st st' frag pf t o,
+      Forall sagree args -> wf st -> s_lazy sg = false ->
+      (let+ st1 := comp_args ops orc fe sg args O st in
+       match intrinsic_cbv sg with
+       | Some o => COk (emit_op o st1)
+       | None =>
+           let o := if s_lazy sg then OP_CALL_BY_NEED else OP_CALL_BY_VALUE in
+           let+ st2 := emit_const (CFun sg) (emit_op o st1) in
+           emit8 (N.of_nat (len args)) st2
+       end) = COk st' ->
+      ext st st' frag pf -> call_m ops orc fe rho f sg args = (t, o) -> is_fault o = false ->
+      eventually (fun F => exec F (pc st) frag (pool_of st') t [] (omap (fun v => [SV v]) o)).
+    Proof.
+      intros sg args st st' frag pf t o Hall W Hl Hc E He Hnf.
+      rewrite (call_strict_eq _ _ Hl) in He. cinv Hc. rename st0 into st1.
+      rewrite (comp_args_strict _ _ _ _ Hl) in Hc0.
+      destruct (comp_list_ext ops orc fe _ (all_ext args) _ _ W Hc0) as [f1 [p1 E1]].
+      pose proof (ext_wf _ _ _ _ W E1) as W1.
+      destruct (intrinsic_cbv sg) as [op|] eqn:Hcbv.
+      - inversion Hc; subst st'. pose proof (ext_emit_op op st1) as E2.
+        destruct (ext_inj _ _ _ _ _ _ E (ext_trans _ _ _ _ _ _ _ E1 E2)) as [Hf Hp]. subst frag pf.
+        destruct (cbv_info sg op Hcbv) as [Hb [_ [bf [Hcl Hsem]]]].
+        eapply strict_call; try eassumption.
+        intros F vs tm om Hlen Hm Hnf'. unfold apply_strict in Hm. rewrite Hb, Hcl in Hm.
+        pose proof (bsem_arity ops orc _ _ _ _ _ _ Hsem Hm Hnf') as Har.
+        rewrite <- Har in Hsem. eapply exec_intrinsic; eassumption.
+      - rewrite Hl in Hc. cbv zeta in Hc. cinv Hc. rename st0 into st2.
+        apply const_instr_ext in Hc1. destruct Hc1 as [E2 _]. apply emit8_ext in Hc. destruct Hc as [E3 _].
+        pose proof (ext_trans _ _ _ _ _ _ _ E2 E3) as E23.
+        destruct (ext_inj _ _ _ _ _ _ E (ext_trans _ _ _ _ _ _ _ E1 E23)) as [Hf Hp]. subst frag pf.
+        assert (Hidx : nth_error (pool_of st') (N.to_nat (cs_plen st1)) = Some (CFun sg)).
+        { eapply pool_ext_nth; [exact (ext_pool_ext _ _ _ _ E3)|]. apply (pool_new_nth _ _ _ _ W1 E2). }
+        eapply strict_call; try eassumption.
+        intros F vs tm om Hlen Hm Hnf'. unfold len. rewrite <- Hlen. cbn [app].
+        eapply exec_call_by_value; eassumption.
+    Qed.
+
+    Lemma case_call_not : forall sg x st st' frag pf t o,
+      sagree x -> wf st -> intrinsic_cbn sg = Some BNot ->
+      (let+ st1 := compile x st in COk (emit_op OP_LOGICAL_NOT st1)) = COk st' ->
+      ext st st' frag pf -> call_m ops orc fe rho f sg [x] = (t, o) -> is_fault o = false ->
+      eventually (fun F => exec F (pc st) frag (pool_of st') t [] (omap (fun v => [SV v]) o)).
+    Proof.
+      intros sg x st st' frag pf t o Hx W Hcbn Hc E He Hnf.
+      destruct (cbn_info sg BNot Hcbn) as [Hb [Hcl [_ Hl]]]. cbn in Hl.
+      rewrite (call_strict_eq _ _ Hl) in He. cinv Hc. rename st0 into st1. inversion Hc; subst st'.
+      assert (Hc1 : comp_list ops orc fe [x] st = COk st1) by (cbn [comp_list]; rewrite Hc0; reflexivity).
+      destruct (comp_list_ext ops orc fe _ (all_ext [x]) _ _ W Hc1) as [f1 [p1 E1]].
+      pose proof (ext_emit_op OP_LOGICAL_NOT st1) as E2.
+      destruct (ext_inj _ _ _ _ _ _ E (ext_trans _ _ _ _ _ _ _ E1 E2)) as [Hf Hp]. subst frag pf.
+      eapply strict_call; try eassumption; [constructor; [exact Hx|constructor]|].
+      intros F vs tm om Hlen Hm Hnf'. unfold apply_strict in Hm. rewrite Hb, Hcl in Hm.
+      eapply exec_intrinsic; [|exact Hm|exact Hnf']. cbn. rewrite Hlen. reflexivity.
+    Qed.
+
+    Lemma case_call_dynamic : forall callee args st st' frag pf t o,
+      sagree callee -> (forall f' t' x, eval f' callee = (t', OVal x) -> not_lazy_fun x) ->
+      Forall sagree args -> wf st ->
+      (let+ st1 := compile callee st in
+       let+ st2 := comp_list ops orc fe args st1 in
+       emit8 (N.of_nat (len args)) (emit_op OP_DYNAMIC_CALL st2)) = COk st' ->
+      ext st st' frag pf ->
+      (let^ fv := eval f callee in
+       match fv with
+       | VFun (TFun n ps r) name lz => call_m ops orc fe rho f (mkSig name ps r lz) args
+       | _ => fault XTypeConf
+       end) = (t, o) -> is_fault o = false ->
+      eventually (fun F => exec F (pc st) frag (pool_of st') t [] (omap (fun v => [SV v]) o)).
+    Proof.
+      intros callee args st st' frag pf t o Hcs Hnl Hall W Hc E He Hnf.
+      cinv Hc. rename st0 into st1. cinv Hc. rename st0 into st2.
+      destruct (compile_ext ops orc fe callee _ _ W Hc0) as [f1 [p1 E1]]. pose proof (ext_wf _ _ _ _ W E1) as W1.
+      destruct (comp_list_ext ops orc fe _ (all_ext args) _ _ W1 Hc1) as [f2 [p2 E2]].
+      apply emit8_ext in Hc. destruct Hc as [E3b _].
+      pose proof (ext_trans _ _ _ _ _ _ _ (ext_emit_op OP_DYNAMIC_CALL st2) E3b) as E3. cbn [app] in E3.
+      destruct (ext_inj _ _ _ _ _ _ E (ext_trans _ _ _ _ _ _ _ E1 (ext_trans _ _ _ _ _ _ _ E2 E3))) as [Hf Hp].
+      subst frag pf.
+      assert (Hp1 : pool_ext (pool_of st1) (pool_of st')).
+      { eapply pool_ext_trans; [exact (ext_pool_ext _ _ _ _ E2)|exact (ext_pool_ext _ _ _ _ E3)]. }
+      destruct (mbind_inv _ _ _ _ _ _ He Hnf) as [[t1 [fv [t2 [Hev [Hr Ht]]]]]|[kf [Hev Ho]]].
+      2:{ subst o. pose proof (IH callee _ _ _ _ _ _ Hcs W Hc0 E1 Hev eq_refl) as Ex.
+          refine (ev_mono _ _ _ Ex). intros F HA. cbn [omap] in *.
+          apply exec_seq_fail. eapply exec_pool; [exact Hp1|exact HA]. }
+      pose proof (Hnl _ _ _ Hev) as Hnlf.
+      pose proof (IH callee _ _ _ _ _ _ Hcs W Hc0 E1 Hev eq_refl) as Ex.
+      destruct fv as [| | | | | | | |fty name lz]; try (inversion Hr; subst; discriminate).
+      destruct fty as [| | | | | | | | | | |n ps r|]; try (inversion Hr; subst; discriminate).
+      destruct lz; [contradiction|].
+      rewrite call_strict_eq in Hr by reflexivity.
+      destruct (mbind_inv _ _ _ _ _ _ Hr Hnf) as [[t3 [vs [t4 [Hmm [Hap Ht2]]]]]|[kf [Hmm Ho]]].
+      - pose proof (list_case _ _ _ _ _ _ _ Hall W1 Hc1 E2 Hmm eq_refl) as Ea.
+        refine (ev_mono _ _ _ (ev_and _ _ Ex Ea)). intros F [HA HB]. cbv beta in HA, HB. cbn [omap] in HA, HB.
+        rewrite (ext_pc _ _ _ _ E1) in HB. subst t t2. rewrite !app_assoc.
+        eapply exec_seq.
+        + assert (HC : exec F (pc st) (f1 ++ f2) (pool_of st') (t1 ++ t3) []
+                            (omap (app [SV (VFun (TFun n ps r) name false)]) (OVal (map SV vs)))).
+          { eapply exec_push; [eapply exec_pool; [exact Hp1|exact HA]|
+                               eapply exec_pool; [exact (ext_pool_ext _ _ _ _ E3)|exact HB]]. }
+          exact HC.
+        + cbn [app]. unfold len. rewrite <- (mmapM_length _ _ _ _ _ _ Hmm).
+          apply exec_dynamic_call. exact Hap.
+      - subst o.
+        pose proof (list_case _ _ _ _ _ _ _ Hall W1 Hc1 E2 Hmm eq_refl) as Ea.
+        refine (ev_mono _ _ _ (ev_and _ _ Ex Ea)). intros F [HA HB]. cbv beta in HA, HB. cbn [omap] in HA, HB.
+        rewrite (ext_pc _ _ _ _ E1) in HB. subst t. rewrite (app_assoc f1 f2). cbn [omap].
+        apply exec_seq_fail.
+        assert (HC : exec F (pc st) (f1 ++ f2) (pool_of st') (t1 ++ t2) []
+                          (omap (app [SV (VFun (TFun n ps r) name false)]) (OFail kf))).
+        { eapply exec_push; [eapply exec_pool; [exact Hp1|exact HA]|
+                             eapply exec_pool; [exact (ext_pool_ext _ _ _ _ E3)|exact HB]]. }
+        exact HC.
+    Qed.
+  End Step.
+End Main.
